@@ -1,6 +1,5 @@
 //! Shared parts of the conformance harness: recording tracer, event sink, user-function
 //! library (mirror of spec/PegValues.tla), JSON output, case runner.
-#![forbid(unsafe_code)]
 
 use std::cell::RefCell;
 use std::fmt::Debug;
